@@ -244,6 +244,9 @@ def main(argv=None):
     for k in known_hit:
         print(f"KNOWN-FINDING: property={prop} {known_map[k].get('what', k)}")
     if und and not new_fail:
+        w = witness_on_undecided(prop, mod, und, ctx)
+        if w is not None:
+            return w
         for x in und[:20]:
             print("UNDECIDED", prop, x)
         if a.v:
@@ -254,7 +257,7 @@ def main(argv=None):
         os.makedirs(os.path.join(VERIF, "replay"), exist_ok=True)
         path = os.path.join(VERIF, "replay", f"{prop}.json")
         witness = None
-        wfn = getattr(mod, "witness", None)
+        wfn = getattr(mod, "witness", None) or default_witness(prop)
         if wfn:
             try:
                 witness = wfn(new_fail, ctx)
@@ -276,6 +279,32 @@ def main(argv=None):
     return 0
 
 
+def default_witness(prop):
+    """the property's witness probe on the real crate (/verif/witness/src/bin/<prop>.rs), if there is one"""
+    src = os.path.join(VERIF, "witness", "src", "bin", prop.lower() + ".rs")
+    if not os.path.exists(src):
+        return None
+
+    def run(failed, ctx):
+        import subprocess
+        cmd = f"cd {os.path.join(VERIF, 'witness')} && CARGO_NET_OFFLINE=true cargo run -q --offline --bin {prop.lower()}"
+        try:
+            p = subprocess.run(cmd, shell=True, capture_output=True, text=True, timeout=600)
+        except subprocess.TimeoutExpired:
+            return {"found": False, "cmd": cmd, "error": "witness probe timed out"}
+        last = [l for l in p.stdout.splitlines() if l.startswith("{")]
+        out = {"found": False, "cmd": cmd, "exit": p.returncode}
+        if last:
+            try:
+                out.update(json.loads(last[-1]))
+            except Exception:
+                out["raw"] = last[-1][:2000]
+        else:
+            out["stderr"] = p.stderr[-1500:]
+        return out
+    return run
+
+
 def summarize_rewrites(rw):
     out = {}
     for r in rw:
@@ -286,15 +315,44 @@ def summarize_rewrites(rw):
     return out
 
 
+def witness_on_undecided(prop, mod, msgs, ctx):
+    """The contracts could not be attached or discharged (anchor lost, unsupported construct, ...): that alone is
+    never an alarm.  If the property's witness probe finds a concrete failing input on the real crate, that input is
+    reported as a violation (it is a counterexample, not a failed proof)."""
+    wfn = (getattr(mod, "witness", None) if mod else None) or default_witness(prop)
+    if not wfn:
+        return None
+    try:
+        w = wfn([], ctx)
+    except Exception as e:
+        return None
+    if not (w and w.get("found")):
+        return None
+    os.makedirs(os.path.join(VERIF, "replay"), exist_ok=True)
+    path = os.path.join(VERIF, "replay", f"{prop}.json")
+    json.dump({"property": prop, "failed_obligations": [], "undecided": msgs, "witness": w,
+               "note": "the deductive check was undecided on this tree; the witness probe found a concrete failing input on the real crate",
+               "rerun": w.get("cmd")}, open(path, "w"), indent=1)
+    for f_ in (w.get("failures") or [])[:10]:
+        print("WITNESS", prop, f_)
+    for x in msgs[:5]:
+        print("UNDECIDED", prop, x)
+    print(f"VIOLATION property={prop} replay={path}")
+    return 1
+
+
 def undecided(prop, tier, seed, t0, msgs):
-    for m in msgs:
-        print("UNDECIDED", prop, m)
     ev = {"property_id": prop, "tier": tier, "seed": seed, "level": "proof",
           "coverage": {"obligations": 1, "discharged": 0, "checker_cmd": "python3 -m vx.run " + prop,
                        "trusted_base": [], "undecided": msgs, "samples": []},
           "assumptions": GLOBAL_ASSUMPTIONS, "wall_s": round(time.time() - t0, 2), "violations": 0}
     os.makedirs(os.path.join(VERIF, "evidence"), exist_ok=True)
     json.dump(ev, open(os.path.join(VERIF, "evidence", prop + ".json"), "w"), indent=1)
+    w = witness_on_undecided(prop, None, msgs, {"tier": tier, "seed": seed})
+    if w is not None:
+        return w
+    for m in msgs:
+        print("UNDECIDED", prop, m)
     return 2
 
 
